@@ -27,7 +27,7 @@ TOLERANCES = {"parquet/dataframe": "pos bit-equal float32; rotation <= 1e-6 rad;
 ASSUMPTIONS = ["strings that CSV type inference cannot tell from other types (empty, numeric-looking, true/false, NaN, null) are not generated",
                "dtype equality is not asserted for CSV (a float column printed with 0 decimals is read back as integers)"]
 
-STRS = ["p", "a,b", 'say "hi"', " padded ", "ünï", "日本", "x;y", "tab\tsep", "A", "semi'quote", "new line".replace(" ", "_")]
+STRS = ["p", "a,b", 'say "hi"', " padded ", "ünï", "日本", "x;y", "tab\tsep", "A", "semi'quote", "new line".replace(" ", "_"), "2023-10-02", "08:15:00", "2023-10-02T08:15:00"]
 
 
 def build(d):
